@@ -21,10 +21,14 @@ def setup_redis():
 
 class RedisSut(object):
     """Two clients (two RedisStore objects with their own connections) on one simulated server."""
-    def __init__(self, kind):
+    def __init__(self, kind, cold=False):
         self.simredis, self.S = setup_redis()
         self.kind = kind
+        self.cold = cold
         self.server = self.simredis.reset_server()
+        # another store's keys share the keyspace under another prefix: they sort before ours and fill the first SCAN page(s)
+        for i in range(self.server.scan_page + 1):
+            self.server.set_value("a-foreign:%d" % i, "hash", {json.dumps("f"): json.dumps(i)})
         self.clients = []
         for i in range(2):
             self._new_client()
@@ -35,11 +39,16 @@ class RedisSut(object):
             del S.RedisStore.connection
         cls = S.RedisDictStore if self.kind == "redis-dict" else S.RedisListStore
         st = cls("redis://localhost:6379", "p", cache_size=CAP, daemon=True)
-        st.get_cached_view("__warm__")     # client-side caching is on from the start (tracking + subscriber thread)
-        st.cache.clear()
-        self.server.read_keys.get(st.redis.id, set()).discard("p:__warm__")
+        if not getattr(self, "cold", False):
+            st.get_cached_view("__warm__")     # client-side caching is on from the start (tracking + subscriber thread)
+            st.cache.clear()
+            self.server.read_keys.get(st.redis.id, set()).discard("p:__warm__")
         self.clients.append(st)
         return st
+
+    def pending(self, ci):
+        st = self.clients[ci]
+        return list(self.server.pending.get(st.tracker_id) or []) if getattr(st, "tracker_id", None) is not None else []
 
     def reopen(self):
         for st in self.clients:
@@ -265,6 +274,55 @@ def bfs_redis(kind, tier, config="symmetric"):
     sut.close()
     return {"kind": kind + "/" + config, "states": states, "transitions": transitions, "findings": findings, "capped": capped, "distinct": len(seen)}
 
+def cold_paths(kind, tier):
+    """Clients that have *not yet* served a cached read (tracking is switched on lazily by the first get_cached_view): every operation
+    sequence up to the tier's length from a fresh pair of clients, replayed from scratch each time (this start-up state cannot be
+    restored from a snapshot).  Same operations and oracle as the search above."""
+    global KEYS, CAP, MAXQ
+    KEYS, CAP, MAXQ = ["k1"], 2, 3
+    vals = [v for v in (VALS if kind == "redis-dict" else LVALS) if (VALS if kind == "redis-dict" else LVALS)[v]][:2]
+    ops = []
+    for c in (0, 1):
+        ops += [("set", c, "k1", v) for v in vals] + [("cached", c, "k1"), ("get", c, "k1"), ("inval", c), ("invalall", c), ("delete", c, "k1")]
+    depth = 4 if tier == "quick" else 5
+    findings = {}
+    paths = transitions = 0
+    seen_states = set()
+    frontier = [[]]
+    for d in range(depth):
+        nxt = []
+        for path in frontier:
+            for op in ops:
+                if op[0] == "delete" and not any(o[0] == "set" for o in path):
+                    continue
+                sut = RedisSut(kind, cold=True)
+                ref = {}
+                bad = False
+                for o in path:
+                    if apply_redis(sut, ref, o, kind) not in (None,):
+                        bad = True
+                        break
+                if bad:
+                    sut.close(); continue
+                v = apply_redis(sut, ref, op, kind)
+                transitions += 1
+                if v == "skip":
+                    sut.close(); continue
+                if v is not None:
+                    sig = "store|%s|%s|%s" % (kind, v[0], op[0])
+                    if sig not in findings or len(path) < len(findings[sig][1]):
+                        findings[sig] = (v[1] + " (clients that had not served a cached read before)", [["cold-start"]] + path + [list(op)])
+                    sut.close(); continue
+                k = sut.canon() + json.dumps(ref, sort_keys=True)
+                sut.close()
+                paths += 1
+                if k in seen_states and d < depth - 1:
+                    continue
+                seen_states.add(k)
+                nxt.append(path + [op])
+        frontier = nxt
+    return {"kind": kind + "/cold-start", "states": len(seen_states), "transitions": transitions, "findings": findings, "capped": False, "distinct": len(seen_states)}
+
 # ------------------------------------------------------------------------------------------------------
 def bfs_local(kind, tier):
     """JSONStore / SimpleStore: one client, plus reopen (JSON) and corrupt-file reopen."""
@@ -406,14 +464,16 @@ def factories(cr):
 
 def _job(args):
     kind, tier = args[0], args[1]
+    if kind.startswith("redis") and args[2] == "cold-start":
+        return cold_paths(kind, tier)
     return bfs_redis(kind, tier, args[2]) if kind.startswith("redis") else bfs_local(kind, tier)
 
 def run(tier, seed):
     cr = common.CheckResult(PROP)
-    jobs = [("json", tier), ("simple", tier)] + [(k, tier, c) for k in ("redis-dict", "redis-list") for c in ("asymmetric", "symmetric", "batch")]
+    jobs = [("json", tier), ("simple", tier)] + [(k, tier, c) for k in ("redis-dict", "redis-list") for c in ("asymmetric", "symmetric", "batch", "cold-start")]
     ctx = multiprocessing.get_context("fork")
-    with ctx.Pool(8) as pool:
-        outs = pool.map(_job, jobs)
+    with ctx.Pool(10) as pool:
+        outs = pool.map(_job, jobs, chunksize=1)
     nf = factories(cr)
     for o in outs:
         for sig, (detail, path) in o["findings"].items():
